@@ -1403,6 +1403,9 @@ func (a *Authenticator) storeClientSession(negotiation *SecurityNegotiation, dur
 	if negotiation.User != "" {
 		_ = policy.Set("User", negotiation.User)
 	}
+	// Record the authentication outcome so a resumed session reports the same
+	// status the original handshake established (the server side already does).
+	_ = policy.Set("Authenticated", negotiation.Authentication)
 	// Store the peer (server) version so a resumed session exposes it just like
 	// a freshly-negotiated one (callers such as CCB streaming gate on it).
 	if negotiation.ServerConfig != nil && negotiation.ServerConfig.RemoteVersion != "" {
@@ -1554,6 +1557,9 @@ func (a *Authenticator) resumeSession(ctx context.Context, entry *SessionEntry, 
 		// Restore User information from cached policy
 		if user, ok := entry.Policy().EvaluateAttrString("User"); ok {
 			negotiation.User = user
+		}
+		if authed, ok := entry.Policy().EvaluateAttrBool("Authenticated"); ok {
+			negotiation.Authentication = authed
 		}
 		// Restore the peer (server) version so version-dependent logic works on
 		// a resumed session (see storeClientSession).
